@@ -8,6 +8,7 @@ test-suite and (B) the property checks of /verif.
   tools/mutation_run.py stageB [-j 3] [--limit N] [--deadline EPOCH] [--follow]
                                              repo-suite survivors, in the stratified order: the relevant checks (quick)
   tools/mutation_run.py summary              write mutation/SUMMARY.md (results.jsonl + triage.jsonl) and survivors/*.diff
+  tools/mutation_run.py leg2 [-j 3] [--deadline EPOCH] [--dry]   second leg: re-run the first leg's GAP/MAP-MISS/NEAR-MISS survivors, then extend the sample
   tools/mutation_run.py recheck --check C19 --sig <text> --base <commit>   re-run false catches on another base (see recheck())
   tools/mutation_run.py demo <id> <x_test.go> run a demonstration test on the clean and on the mutated tree
   tools/mutation_run.py clean                remove the scratch worktrees and /tmp/mut
@@ -50,14 +51,21 @@ RELEVANCE = [
     (r"^soyjs/.*$", "C04 C14 C13 C16"),
     (r"^data/.*\.go$", "C20 C01 C04"),
     (r"^errortypes/.*\.go$", "C19"),
-    (r"^(bundle|globals)\.go$", "C13 C07 C01 C09"),
+    (r"^(bundle|globals)\.go$", "C06 C13 C07 C01 C09"),  # C06 added in the second leg (4 MAP-MISS in the first)
 ]
+# second leg: mutants inside the file-watching code of bundle.go also get the XWATCH extra (bin/extra watch quick)
+WATCH_FUNCS = {"Bundle.WatchFiles", "Bundle.recompiler", "Bundle.AddTemplateFile"}
 
 
-def relevant(path):
+def relevant(m):
+    """m: a mutant (dict with file and func) or a path"""
+    path = m if isinstance(m, str) else m["file"]
     for pat, checks in RELEVANCE:
         if re.match(pat, path):
-            return checks.split()
+            cs = checks.split()
+            if not isinstance(m, str) and path == "bundle.go" and m.get("func") in WATCH_FUNCS:
+                cs = ["XWATCH"] + cs
+            return cs
     return []
 
 
@@ -72,6 +80,22 @@ def load_index():
         return [json.loads(l) for l in f if l.strip()]
 
 
+def load_all():
+    """(a, b, r): stage A, stage B (sample; field leg = 2 for the second leg), stage R (re-runs of first-leg survivors)"""
+    a, b = load_results()
+    r = {}
+    if os.path.exists(RESULTS):
+        with open(RESULTS) as f:
+            for l in f:
+                try:
+                    x = json.loads(l)
+                except ValueError:
+                    continue
+                if x.get("stage") == "R":
+                    r[x["id"]] = x
+    return a, b, r
+
+
 def load_results():
     a, b = {}, {}
     if os.path.exists(RESULTS):
@@ -84,7 +108,10 @@ def load_results():
                     r = json.loads(l)
                 except ValueError:
                     continue  # a line being written by another process
-                (a if r["stage"] == "A" else b)[r["id"]] = r
+                if r["stage"] == "A":
+                    a[r["id"]] = r
+                elif r["stage"] == "B":
+                    b[r["id"]] = r
     return a, b
 
 
@@ -292,7 +319,8 @@ def stage_a(args):
 
 def run_check(wt, cid):
     env = dict(ENV, VERIF_REPO=wt, VERIF_NOEVIDENCE="1")
-    rc, out, secs = run([os.path.join(VERIF, "bin", "check"), cid, "quick"], VERIF, CHECK_TIMEOUT, env=env)
+    cmd = [os.path.join(VERIF, "bin", "extra"), "watch", "quick"] if cid == "XWATCH" else [os.path.join(VERIF, "bin", "check"), cid, "quick"]
+    rc, out, secs = run(cmd, VERIF, CHECK_TIMEOUT, env=env)
     lines = out.splitlines()
     sig = ""
     nviol = 0
@@ -318,7 +346,7 @@ def stage_b_one(wt, m, keep=None, start_at=None):
         r.update(status="patch-failed", detail=err[:200])
         return r
     trouble = [c["check"] for c in r["checks"] if c["exit"] not in (0, 1)]
-    todo = relevant(m["file"])
+    todo = relevant(m)
     if start_at:
         todo = todo[todo.index(start_at):]
     for cid in todo:
@@ -397,6 +425,122 @@ def stage_b(args):
     for t in ts:
         t.join()
     print("stage B done:", dict(counts), flush=True)
+
+
+# ---------------------------------------------------------------------------
+# second leg
+
+COMMAND_NODES = set("""SoyFileNode ListNode RawTextNode NamespaceNode TemplateNode TypeNode HeaderParamNode SoyDocNode
+SoyDocParamNode LiteralNode CssNode LogNode DebuggerNode LetValueNode LetContentNode IdentNode MsgNode MsgPlaceholderNode
+MsgHtmlTagNode MsgPluralNode MsgPluralCaseNode CallNode CallParamValueNode CallParamContentNode IfNode IfCondNode
+SwitchNode SwitchCaseNode ForNode""".split())
+PRIORITY = [r"^bundle\.go$", r"^soyjs/funcs\.go$", r"^soyjs/exec\.go$", r"^soyhtml/exec\.go$", r"^soyhtml/funcs\.go$",
+            r"^data/value\.go$", r"^parse/parse\.go$", r"^parsepasses/", r"^template/registry\.go$", r"^soymsg/"]
+
+
+def known_equivalent(m):
+    """families the first leg showed to be equivalent; not sampled again"""
+    f = m.get("func") or ""
+    if m["file"] == "ast/node.go" and f.endswith(".String") and f.split(".")[0] in COMMAND_NODES:
+        return "String() of a command node (outside C17, used nowhere else)"
+    if m["file"] == "soyjs/funcs.go" and m["op"] == "CONST" and "[]int{" in m.get("before", ""):
+        return "soyjs.Func.ValidArgLengths is dead data"
+    return ""
+
+
+def leg2_order(index, a, b):
+    """repo-suite survivors without a stage-B record, one per stratum (file, operator) per round; the strata
+    with the fewest stage-B records so far come first, within one level the priority files first"""
+    sampled = collections.Counter()
+    byid = {m["id"]: m for m in index}
+    for i in b:
+        if i in byid:
+            sampled[(byid[i]["file"], byid[i]["op"])] += 1
+    rnd = random.Random(SEED + 1)
+    pend = collections.defaultdict(list)
+    for m in index:
+        ra = a.get(m["id"])
+        if ra and ra["status"] == "survived-repo-tests" and m["id"] not in b and not known_equivalent(m):
+            pend[(m["file"], m["op"])].append(m)
+    for k in sorted(pend):
+        rnd.shuffle(pend[k])
+    prio = lambda k: 0 if any(re.match(p, k[0]) for p in PRIORITY) else 1
+    order = []
+    level = dict((k, sampled[k]) for k in pend)
+    while any(pend.values()):
+        lv = min(level[k] for k in pend if pend[k])
+        row = [k for k in sorted(pend) if pend[k] and level[k] == lv]
+        rnd.shuffle(row)
+        row.sort(key=prio)
+        for k in row:
+            order.append(pend[k].pop())
+            level[k] += 1
+    return order
+
+
+def leg2(args):
+    index = load_index()
+    byid = {m["id"]: m for m in index}
+    a, b, r = load_all()
+    triage = {}
+    if os.path.exists(TRIAGE):
+        for l in open(TRIAGE):
+            if l.strip():
+                t = json.loads(l)
+                triage[t["id"]] = t
+    # (1) first-leg survivors to run again against the current checkers
+    rerun = []
+    for i, rb in b.items():
+        if rb.get("leg") == 2 or rb["status"] not in ("survivor", "tool-trouble") or i not in byid or i in r:
+            continue
+        t = triage.get(i, {})
+        cls = t.get("class", "")
+        if cls in ("GAP", "GAP-CLOSED", "MAP-MISS") or "NEAR-MISS" in t.get("why", "") or \
+           (byid[i]["file"] in ("bundle.go", "globals.go") and cls != "EQUIVALENT"):
+            rerun.append(byid[i])
+    ext = leg2_order(index, a, b)
+    print("leg 2: %d first-leg survivors to re-run, %d candidates for the extension" % (len(rerun), len(ext)), flush=True)
+    if args.dry:
+        for m in rerun:
+            print("R", m["id"], " ".join(relevant(m)))
+        for m in ext[:400]:
+            print("B", m["id"])
+        return
+    jobs = [("R", m) for m in rerun] + [("B", m) for m in ext]
+    it = iter(jobs)
+    lock = threading.Lock()
+    t0 = time.time()
+    counts = collections.Counter()
+
+    def worker(k):
+        wt = worktree("wL%d" % k)
+        while True:
+            with lock:
+                job = next(it, None)
+                if job and job[0] == "B" and args.deadline and time.time() > args.deadline:
+                    job = None
+            if job is None:
+                break
+            stage, m = job
+            try:
+                rec = stage_b_one(wt, m)
+            except Exception as e:  # noqa
+                rec = {"id": m["id"], "op": m["op"], "file": m["file"], "line": m["line"], "status": "runner-error", "detail": str(e)[:200], "checks": []}
+            rec["stage"] = stage
+            rec["leg"] = 2
+            record(rec)
+            with lock:
+                counts[(stage, rec["status"])] += 1
+                print("  %s %-45s %-12s %-6s %.0fs load=%.1f" % (stage, m["id"], rec["status"], rec.get("caught_by", ""), time.time() - t0, os.getloadavg()[0]), flush=True)
+        subprocess.run(["git", "-C", wt, "checkout", "-q", "--", "."])
+
+    ts = [threading.Thread(target=worker, args=(k,)) for k in range(args.j)]
+    for t in ts:
+        t.start()
+        time.sleep(5)
+    for t in ts:
+        t.join()
+    print("leg 2 done:", dict(counts), flush=True)
 
 
 def recheck(args):
@@ -510,6 +654,10 @@ def main():
     b.add_argument("--limit", type=int, default=0, help="stop when this many mutants have a stage-B record")
     b.add_argument("--deadline", type=float, default=0, help="epoch seconds after which no new mutant is started")
     b.add_argument("--follow", action="store_true", help="keep waiting for stage A to produce survivors")
+    l2 = sub.add_parser("leg2")
+    l2.add_argument("-j", type=int, default=3)
+    l2.add_argument("--deadline", type=float, default=0)
+    l2.add_argument("--dry", action="store_true")
     rc = sub.add_parser("recheck")
     rc.add_argument("--check", required=True)
     rc.add_argument("--sig", required=True)
@@ -535,7 +683,9 @@ def main():
         stage_b(args)
     elif args.cmd == "summary":
         import mutation_summary
-        mutation_summary.main()
+        mutation_summary.main2()
+    elif args.cmd == "leg2":
+        leg2(args)
     elif args.cmd == "recheck":
         recheck(args)
     elif args.cmd == "demo":
